@@ -50,7 +50,7 @@ R == [err |-> T.out.raised, features |-> T.out.features, key |-> T.out.spectrum,
       targets |-> T.out.targets, meta |-> SeqRange(T.out.meta), levels |-> SeqRange(T.out.levels)]
 Domain == /\ Len(T.names) = Len(T.kinds) /\ Distinct(T.names)
           /\ D!WellFormed(X)
-          /\ Len(T.keyin) = T.nrows /\ Distinct(T.keyin)
+          /\ Len(T.keyin) = T.nrows /\ (D!Has(X, "scannr") => Distinct(T.keyin))   \* row order is observable
 
 \* the clauses of PinParse.tla plus what ties the spectra frame and the file name to the input
 Clauses ==
